@@ -1,5 +1,6 @@
 (* C11 — breakpoints always stop execution before the marked instruction. *)
 From Lace Require Import Word Machine Isa Vm Asm Dbg DbgProofs DbgRef.
+From Lace Require Examples.
 Open Scope N_scope.
 
 (** Whenever the PC carries a breakpoint — whatever is pending (continue, step, step into, step
@@ -69,3 +70,9 @@ Theorem C11_ref_resume : forall feat bps fuel c st m,
   end.
 Proof. exact ref_cmd_leaves_breakpoint. Qed.
 Print Assumptions C11_ref_resume.
+
+(** Non-vacuity: a state whose PC carries a breakpoint; a sorted breakpoint list. *)
+Example C11_nonvacuous :
+  bp_get (d_bps (Examples.ex_dbg ((12289, false) :: nil))) (s_pc Examples.ex_state1) <> None /\
+  bp_sorted (d_bps (Examples.ex_dbg ((12289, false) :: (12290, true) :: nil))).
+Proof. split; [exact Examples.ex_breakpoint_at_pc|exact Examples.ex_sorted]. Qed.
